@@ -21,7 +21,7 @@ func init() {
 			"Softmax along a dimension of size > 1 goes through an implicit expansion of its normaliser: a failing case is attributed to the recorded finding only if EVERY gradient equals the reference tape run with BroadcastRule=Avg; size-1 Softmax and all other activations have no expansion and must match exactly. " +
 			"Non-trivial: >= 2 elements or an upstream program; distinct = (activation, config, shape, value class, variant).",
 		Assumptions: []string{"gradient comparison: |r-e| <= 1e-10*(1+max|e|) + 1e-9*max(|r|,|e|)"},
-		FloorQuick:  5000, FloorThor: 40000,
+		FloorQuick:  5000, FloorThor: 15000,
 		Run: runC15,
 	})
 }
